@@ -201,12 +201,15 @@ def shape_deadbranch(rng):
     edges = list(edges)
     pool = sorted({c for u in units for c in u["caps"]}, key=CAPS.index)
     nbr = rng.randint(1, 2)
+    deep = rng.random() < 0.25        # scale: one dead branch 4-7 levels deep (bounded / non-iterated pruning, C10-8)
     for _ in range(nbr):
-        room = 8 - len(units)
+        room = (14 if deep else 8) - len(units)
         if room < 1:
             break
         new_source = rng.random() < 0.1 and room >= 2
         length = rng.randint(2 if new_source else 1, min(3, room))
+        if deep:
+            length, deep, new_source = rng.randint(4, min(7, room)), False, False
         quiet = rng.random() < 0.7
         names = _names(rng, 12)
         names = [n for n in names if n.lower() not in {u["name"].lower() for u in units}]
